@@ -45,6 +45,7 @@ import (
 	"github.com/refraction-networking/conjure/pkg/transports/wrapping/obfs4"
 	"github.com/refraction-networking/conjure/pkg/transports/wrapping/prefix"
 	pb "github.com/refraction-networking/conjure/proto"
+	"google.golang.org/protobuf/proto"
 )
 
 // ------------------------------------------------------------------ abstract value -> concrete text
@@ -79,7 +80,8 @@ var vcfgEntries = map[string]vcfgEntry{
 	"s127": {"", "127.0.0.1"}, "s10": {"", "10.9.8.7"}, "s172": {"", "172.20.1.1"}, "s192": {"", "192.168.7.7"},
 	"sfc00ws": {"", "fd12:3456::1"}, "sfe80": {"", "fe80:1::1234"}, "sv6lo": {"", "::1"}, "sdloc": {"", "localhost"},
 	// in no list / a local interface address
-	"out": {"", "8.8.8.8"}, "lo": {"", "127.0.0.1"},
+	// ("lonet": another address of the loopback interface's subnet - 127.0.0.1/8 - than the interface address itself)
+	"out": {"", "8.8.8.8"}, "lo": {"", "127.0.0.1"}, "lonet": {"", "127.0.0.2"},
 }
 
 // further addresses inside the same entries, for machines whose interfaces cover the default probe
@@ -100,11 +102,11 @@ var vcfgLists = map[string]map[string][]string{
 var vcfgListKey = map[string]string{"cbs": "covert_blocklist_subnets", "cas": "covert_allowlist_subnets",
 	"cbd": "covert_blocklist_domains", "pbl": "phantom_blocklist"}
 
-var vcfgCovertProbes = []string{"c198", "cdb8b", "c100", "cws", "a203", "adb8a", "aws", "out", "lo",
+var vcfgCovertProbes = []string{"c198", "cdb8b", "c100", "cws", "a203", "adb8a", "aws", "out", "lo", "lonet",
 	"s127", "s10", "s172", "s192", "sfc00ws", "sfe80", "sv6lo"}
 var vcfgDomainProbes = []string{"dblk", "dloc", "doth", "sdloc"}
 var vcfgPhantomProbes = []string{"p192", "pws"}
-var vcfgLocalProbes = map[string]bool{"lo": true, "s127": true, "sv6lo": true}
+var vcfgLocalProbes = map[string]bool{"lo": true, "lonet": true, "s127": true, "sv6lo": true}
 
 const vcfgSubnetsS1 = `
 [Networks]
@@ -491,6 +493,72 @@ func (s *vcfgStation) populate() {
 	s.zmq.addDroppedZMQMessage()
 }
 
+// vcfgServed counts the control registrations (phantom in no blocklist entry) the serving-level measurement saw served
+var vcfgServedControls, vcfgServedSkipped int64
+
+// a covert address the policy in force admits (the serving-level measurement needs a registration that passes every
+// OTHER admission test)
+func (s *vcfgStation) admittedCovert() string {
+	for _, n := range append([]string{"out"}, vcfgCovertProbes...) {
+		if out, _ := s.rm.ParseOrResolveBlocklisted(net.JoinHostPort(vcfgEntries[n].probe, "443")); out != "" {
+			return out
+		}
+	}
+	return ""
+}
+
+// served pushes one registration on phantom ph through the real ingestRegistration and reports whether the station
+// ends up with a VALID registration there (= it would serve a connection to it)
+func (s *vcfgStation) served(ph string, src pb.RegistrationSource, sharing bool, covert string) bool {
+	s.nreg++
+	d := s.mkReg(s.nreg, ph)
+	d.RegistrationSource = &src
+	d.Covert = covert
+	if src == pb.RegistrationSource_DetectorPrescan {
+		d.Flags = &pb.RegistrationFlags{Prescanned: proto.Bool(true)}
+	}
+	oldShare, oldEP := s.rm.EnableShareOverAPI, s.rm.PreshareEndpoint
+	s.rm.EnableShareOverAPI, s.rm.PreshareEndpoint = sharing, "http://127.0.0.1:1/verif-no-peer"
+	s.rm.ingestRegistration(d)
+	s.rm.EnableShareOverAPI, s.rm.PreshareEndpoint = oldShare, oldEP
+	for _, r := range s.rm.registeredDecoys.getRegistrations(net.ParseIP(ph)) {
+		if r == d && r.Valid {
+			return true
+		}
+	}
+	return false
+}
+
+// phantomRefused: the entry is enforced where it matters - no registration on a phantom inside it is served, from whatever
+// source it arrives (ValidateRegistration applies the list to every source but the local detector, ingestRegistration to
+// the local detector after the share) and whether enable_share_over_api is on or off
+func (s *vcfgStation) phantomRefused(ph, entry string, notes *[]string) bool {
+	covert := s.admittedCovert()
+	if covert == "" {
+		atomic.AddInt64(&vcfgServedSkipped, 1)
+		return true // no registration at all can be served under this policy
+	}
+	control := "192.122.190.77"
+	if net.ParseIP(ph).To4() == nil {
+		control = "2001:48a8:687f:9::77"
+	}
+	if !s.rm.IsBlocklistedPhantom(net.ParseIP(control)) && s.served(control, pb.RegistrationSource_Detector, false, covert) {
+		atomic.AddInt64(&vcfgServedControls, 1)
+	}
+	ok := true
+	for _, src := range []pb.RegistrationSource{pb.RegistrationSource_Detector, pb.RegistrationSource_API, pb.RegistrationSource_DetectorPrescan} {
+		for _, sharing := range []bool{false, true} {
+			if s.served(ph, src, sharing, covert) {
+				ok = false
+				if notes != nil {
+					*notes = append(*notes, fmt.Sprintf("phantom entry %s: a %v registration on %s is served (sharing=%v)", entry, src, ph, sharing))
+				}
+			}
+		}
+	}
+	return ok
+}
+
 func vcfgTry(f func()) (msg string) {
 	defer func() {
 		if r := recover(); r != nil {
@@ -560,7 +628,7 @@ func (s *vcfgStation) project(withHK bool, notes *[]string) map[string]any {
 		}
 	}
 	for _, n := range vcfgPhantomProbes {
-		if s.rm.IsBlocklistedPhantom(net.ParseIP(vcfgEntries[n].probe)) {
+		if s.rm.IsBlocklistedPhantom(net.ParseIP(vcfgEntries[n].probe)) && s.phantomRefused(vcfgEntries[n].probe, n, notes) {
 			phantom = append(phantom, n)
 		}
 	}
@@ -789,7 +857,8 @@ func TestVerifConfigReplay(t *testing.T) {
 		}
 		cur.stop()
 	})
-	out.Emit(map[string]any{"kind": "summary", "behaviours": nb, "steps": ns, "mismatches": nm, "accepted": nacc, "how": hows, "children": vcfgChildren, "kinds": sigs})
+	out.Emit(map[string]any{"kind": "summary", "behaviours": nb, "steps": ns, "mismatches": nm, "accepted": nacc, "how": hows, "children": vcfgChildren, "kinds": sigs,
+		"served_controls": atomic.LoadInt64(&vcfgServedControls), "served_skipped": atomic.LoadInt64(&vcfgServedSkipped)})
 }
 
 // random sequences, with housekeeping as separate events (one module at a time) - not derived from the spec
